@@ -12,6 +12,7 @@ import (
 
 	"github.com/ipfs/go-graphsync"
 	"github.com/ipfs/go-graphsync/dedupkey"
+	gsimpl "github.com/ipfs/go-graphsync/impl"
 
 	"verif/harness/gen"
 	"verif/harness/ref"
@@ -26,7 +27,7 @@ func TestC20(t *testing.T) {
 	defer rep.Flush(false)
 	for _, ci := range p.Cases() {
 		r := p.RNG("c20", ci)
-		class := []string{"overlap-same-scope", "overlap-distinct-keys", "disjoint", "overlap-requestor-holds-shared"}[r.Intn(4)]
+		class := []string{"overlap-same-scope", "overlap-distinct-keys", "disjoint", "overlap-requestor-holds-shared", "overlap-same-key"}[r.Intn(5)]
 		nreq := 2 + r.Intn(4)
 		// the DAGs: one DAG with sub-roots (overlap) or several disjoint DAGs
 		type rq struct {
@@ -115,6 +116,15 @@ func TestC20(t *testing.T) {
 				rqs[i].key = fmt.Sprintf("scope-%d", i)
 			}
 		}
+		if class == "overlap-same-key" {
+			for i := range rqs {
+				rqs[i].key = "shared-scope"
+			}
+		}
+		sameScope := class == "overlap-same-scope" || class == "overlap-same-key"
+		// in half of the same-scope cases the responder serves one request at a time, so that a request
+		// often finishes there before the next one (already registered) is traversed
+		serial := sameScope && r.Intn(2) == 0
 		rep.Journal("case %d class=%s requests=%d blocks=%d", ci, class, len(rqs), len(blocks))
 		w := NewWorld()
 		pert := NewPerturber(r.Int63(), 1+ci%2)
@@ -127,7 +137,11 @@ func TestC20(t *testing.T) {
 			sb.Put(k, b)
 		}
 		A := w.AddGS("A", sa, NodeOpts{})
-		B := w.AddGS("B", sb, NodeOpts{})
+		var bopts []gsimpl.Option
+		if serial {
+			bopts = append(bopts, gsimpl.MaxInProgressIncomingRequests(1))
+		}
+		B := w.AddGS("B", sb, NodeOpts{Options: bopts})
 		w.Fab.Link(A.ID, B.ID).Delay = pert.LinkDelay()
 		w.Fab.Link(B.ID, A.ID).Delay = pert.LinkDelay()
 		// relative speeds: per-request delays in the block hooks on both sides
@@ -220,10 +234,36 @@ func TestC20(t *testing.T) {
 				sig := mm.Sig
 				// known-finding predicate: same scope, and every spuriously missing link is a block shared with another
 				// request of this case that the requestor did not hold initially
-				if class == "overlap-same-scope" && len(mm.SpuriousMissing) > 0 {
+				if sameScope && len(mm.SpuriousMissing) > 0 {
 					all := true
 					_, errs, _, _ := reqs[i].Snapshot()
 					ms, _ := ErrKinds(errs)
+					bev := B.Events()
+					wire := w.Fab.Wire()
+					// hookAt: when the responder's traversal of request id reached link k (0 = never)
+					hookAt := func(id graphsync.RequestID, k string) int64 {
+						for _, e := range bev {
+							if e.Kind == "outgoing-block-hook" && e.ID == id && e.Link == k {
+								return e.Seq
+							}
+						}
+						return 0
+					}
+					// terminalSentAt: when the responder put request id's terminal status on the wire; by
+					// then it has stopped tracking the request's links for a while
+					terminalSentAt := func(id graphsync.RequestID) int64 {
+						for _, m := range wire {
+							if m.From != B.ID {
+								continue
+							}
+							for _, rs := range m.Responses {
+								if rs.ID == id && rs.Status.IsTerminal() {
+									return m.Seq
+								}
+							}
+						}
+						return 0
+					}
 					for _, m := range ms {
 						k := m.Link.(interface{ String() string }).String()
 						shared := false
@@ -232,7 +272,21 @@ func TestC20(t *testing.T) {
 								shared = true
 							}
 						}
-						if !shared {
+						// ... and when this request's traversal reached the link, another request that had
+						// already traversed it was still in progress on the responder
+						tB := hookAt(reqs[i].ID, k)
+						inFlight := false
+						for j := range reqs {
+							if j == i {
+								continue
+							}
+							tA := hookAt(reqs[j].ID, k)
+							done := terminalSentAt(reqs[j].ID)
+							if tA != 0 && tB != 0 && tA < tB && (done == 0 || done > tB) {
+								inFlight = true
+							}
+						}
+						if !shared || !inFlight {
 							all = false
 						}
 					}
